@@ -204,6 +204,46 @@ pub fn run(rep: &mut Rep) {
             }
         }
     }
+    // (1b) history (in)dependence: the hash is a pure function, so the result must not depend on what was hashed
+    // just before on the same thread. Prefix chains (v[..n] for n = 1..8) and equal-element vectors are hashed in
+    // ascending, descending and shuffled order, through alternating entry points, and each result is compared
+    // with the reference.
+    {
+        use rand::seq::SliceRandom;
+        for round in 0..(if thorough { 200 } else { 24 }) {
+            let base: Vec<Fr> = match round % 4 {
+                0 => (0..8).map(|_| rand_fr(&mut rng)).collect(),
+                1 => vec![grid[round % grid.len()].1; 8],
+                2 => (0..8).map(|i| Fr::from(i as u64)).collect(),
+                _ => (0..8).map(|i| if i % 2 == 0 { Fr::from(0u64) } else { rand_fr(&mut rng) }).collect(),
+            };
+            let mut order: Vec<usize> = (1..=8).collect();
+            match (round / 4) % 3 {
+                0 => {}
+                1 => order.reverse(),
+                _ => order.shuffle(&mut rng),
+            }
+            // walk the chain twice so that every length is preceded by a longer and by a shorter input at some point
+            let walk: Vec<usize> = order.iter().chain(order.iter().rev()).cloned().collect();
+            for (k, n) in walk.iter().enumerate() {
+                let v = &base[..*n];
+                check_poseidon(rep, &mut log, &format!("prefix-chain|round%4={}|order={}", round % 4, (round / 4) % 3), v, k % 3 == 0);
+            }
+        }
+        // same for hash_to_field: prefixes / extensions of one byte string in varying order
+        let baseb = rand_bytes(&mut rng, 300);
+        let mut lens: Vec<usize> = vec![0, 1, 2, 31, 32, 33, 135, 136, 137, 271, 272, 300];
+        for round in 0..6 {
+            if round % 2 == 1 {
+                lens.reverse();
+            } else if round > 1 {
+                lens.shuffle(&mut rng);
+            }
+            for l in lens.iter() {
+                check_h2f(rep, &mut log, &format!("prefix-chain|len={l}"), &baseb[..*l], round == 0);
+            }
+        }
+    }
     // (2) random vectors, sharded
     let nrand = if thorough { 2_000_000 } else { 120_000 };
     let nsh = ncpu();
